@@ -36,15 +36,15 @@ for which, roots, stub in (('url', ['url_parse_ipv6'], []), ('url_aggregator', [
                     solver='kissat', timeout=3000, object_bits=10, tier='thorough',
                     note='%s::parse_ipv6: all safety checks for every input length the function admits (0..45, and too long)' % which))
 
-for which, root, stub in (('url', 'url_parse_ipv6', []), ('url_aggregator', 'agg_parse_ipv6', ['agg_update_base_hostname'])):
+for which, root, stub in (('url', 'url_parse_ipv6', ['serializers_ipv6']), ('url_aggregator', 'agg_parse_ipv6', ['agg_update_base_hostname', 'serializers_ipv6'])):
     only = 'ONLY_URL=1' if which == 'url' else 'ONLY_AGG=1'
     OBLS.append(Obl('C02.parse_ipv6.safe_any_length.%s' % which, ['C02', 'C10', 'C04'], 'Pinf', 'c10/ipv6_safe_any.c', roots=[root],
                     stub=stub, specs={'agg_update_base_hostname': 'skel/agg_update_base_hostname.recordk.spec', root: 'parse_ipv6.cut.spec'},
-                    bufn=64, unwind=48, defines=['STR_CAP=42', only], includes=INC,
+                    bufn=64, unwind=44, defines=['STR_CAP=42', only], includes=INC,
                     globals=[('omitted', 'const unsigned int'), ('url_default', '@default'), ('url_aggregator_default', '@default')],
                     solver='cadical', timeout=1800, object_bits=10,
                     note='%s::parse_ipv6: all safety checks; piece loop and IPv4-in-IPv6 loop cut by their invariants, so the argument does not depend on the input length '
-                         '(view of 0..64 bytes; the function itself refuses every length > 45)' % which))
+                         '(view of 0..64 bytes; the function itself refuses every length > 45); the serializer is abstract here (C10.serializers.ipv6.exact)' % which))
 
 OBLS.append(Obl('C04.url.get_components.aggregator_layout/c12', ['C04', 'C07', 'C02'], 'B(12)', 'c04/url_components.c', roots=['url_get_components', 'url_get_href', 'url_get_href_size'],
                 unwind=14, defines=['STR_CAP=12', 'MEMCPY_BYTEWISE=1'], includes=['spec/urlspec.h', 'spec/scan.h', 'spec/agg_wf.h'], globals=[('omitted', 'const unsigned int')],
